@@ -726,4 +726,21 @@ def N_(name, p):
     return ast.Name(id=name, ctx=ast.Load())
 
 
-RULES = [rule_loop, rule_none, rule_match, rule_allof, rule_expected, rule_reject, rule_write, rule_copied_guards, rule_decided_at_dequeue, rule_stored_callable]
+def rule_awaited_verdict(ctx: Ctx):
+    """C01.expected (async engine): a guard's or validator's verdict is the *awaited* value whatever kind of callable produced
+    the awaitable (a plain function or lambda handing back a coroutine, an expression whose operand is async): an un-awaited
+    coroutine is truthy, so every such `cond` would hold and every such validator would pass."""
+    from . import c05
+
+    c05.rule_wrapper(ctx, rule="C01.expected")
+
+
+def rule_validator_exception_reaches_caller(ctx: Ctx):
+    """C01.reject: a validator (or guard) that raises aborts the event with *that* exception - including StopIteration, which
+    `map()`-applied callbacks would lose."""
+    from . import c04
+
+    c04.rule_stopiteration_safe(ctx, rule="C01.reject")
+
+
+RULES = [rule_loop, rule_none, rule_match, rule_allof, rule_expected, rule_reject, rule_write, rule_copied_guards, rule_decided_at_dequeue, rule_stored_callable, rule_awaited_verdict, rule_validator_exception_reaches_caller]
